@@ -92,6 +92,16 @@ def fam_C04(tier, seed):
         b.con("ResourcePeriodicallyInterrupted", res=res, intervals=ivs, period=period, start=st, offset=off,
               end=[] if en is None else [en])
         ps.append(b.done())
+    # TWO interruption constraints on one resource (open finding F9: their overlaps are not combined)
+    for (k1, k2), second in itertools.product([("V", "F1"), ("V", "V0")],
+                                              [("ResourceInterrupted", dict(intervals=[[2, 3]])),
+                                               ("ResourceInterrupted", dict(intervals=[[3, 4]])),
+                                               ("ResourcePeriodicallyInterrupted", dict(intervals=[[2, 3]], period=4, start=0, offset=0, end=[]))]):
+        b = PB(6, tag="two-interruption-constraints")
+        _, res = _two_on_worker(b, k1, k2)
+        b.con("ResourceInterrupted", res=res, intervals=[[1, 2]])
+        b.con(second[0], res=res, **second[1])
+        ps.append(b.done())
     # ResourceNonDelay / ResourceTasksDistance on a plain worker (2 and 3 tasks)
     for ks, op in itertools.product([("F2", "F1"), ("F1", "F1", "F1"), ("V", "F1"), ("F1", "F2", "V")], [(), (1,)]):
         def mk(b):
